@@ -2,15 +2,23 @@
 # Entry point of every check:  ./run.sh <Cnn> <quick|thorough>   |   ./run.sh replay <file>
 # Rebuilds the harness (and, through cargo's fingerprints, reval from /repo's working tree) first.
 # Exit codes: 0 held / 1 violation / 2 machinery problem (never a verdict).
+# Background runs on a snapshot may set VERIF_REPO (another checkout of reval) and VERIF_TARGET.
 set -u
-cd /verif/mc || exit 2
+VDIR=$(cd "$(dirname "$0")" && pwd)
+export VERIF_DIR=$VDIR
+export VERIF_REPO=${VERIF_REPO:-/repo}
+export VERIF_TARGET=${VERIF_TARGET:-/verif/target}
+export CARGO_TARGET_DIR=$VERIF_TARGET
 export CARGO_NET_OFFLINE=true
-LOG=/verif/target/build.$$.log
-mkdir -p /verif/target
-if ! cargo build --release --offline -q >"$LOG" 2>&1; then
-  echo "MACHINERY-ERROR build of the harness against /repo failed (log: $LOG)"
+cd "$VDIR/mc" || exit 2
+CFG=()
+if [ "$VERIF_REPO" != "/repo" ]; then CFG=(--config "paths=[\"$VERIF_REPO\"]"); fi
+mkdir -p "$VERIF_TARGET"
+LOG=$VERIF_TARGET/build.$$.log
+if ! cargo build --release --offline -q "${CFG[@]}" >"$LOG" 2>&1; then
+  echo "MACHINERY-ERROR build of the harness against $VERIF_REPO failed (log: $LOG)"
   tail -30 "$LOG"
   exit 2
 fi
 rm -f "$LOG"
-exec /verif/target/release/mc "$@"
+exec "$VERIF_TARGET/release/mc" "$@"
